@@ -22,6 +22,10 @@ func VHC20Index() {
 	prog := "{ x = $.arr[$.i] }\nEND { print 'end' }"
 	if write {
 		prog = "{ $.arr[$.i] = 1; print 'stored' }\nEND { print 'end' }"
+		if side == 0 && vh.Choose("grown", 2) == 1 {
+			// the array was already extended close to the limit by an earlier (allowed) store
+			prog = "{ $.arr[1000000] = 0; $.arr[$.i] = 1; print 'stored' }\nEND { print 'end' }"
+		}
 	}
 	doc := map[string]any{"arr": []any{1.0, 2.0, 3.0}, "i": i}
 	var out vh.Out
